@@ -1,5 +1,6 @@
 SPECIFICATION Spec
-CONSTANTS MaxLen = 2
+CONSTANTS NestDepth = 2
+          MaxLen = 2
           MaxFill = 1
           CoreFill = 2
           SimLens = {}
